@@ -10,20 +10,31 @@ Recognised: docstrings, comments, `pass`; `try … finally` without handlers; `t
 error=sys.exc_info())` followed by `<x>.run(<process_result>)` (one action; any local name); `<queue>.put(<test>)`;
 `<process_result>.stopTestRun()` / `.startTestRun()`.  <test>, <process_result>, <queue> are the parameters, under any names.
 `run()` itself is not translated.
+Harmless rewrites that leave the term unchanged: renamed parameters / locals; the id string bound to a local on its own line
+(`<s> = "broken-runner…"` or the f-string, a pure binding) and passed to ErrorHolder by name; the single statement
+`try: B except C: H finally: F`, which Python defines as `try: (try: B except C: H) finally: F` - both give the nested skeleton.
 """
 import ast, os
 from harness.tfrskel import find
 
 
-def holder_binding(s):
+def broken_id(a, strs):
+    """is the expression a string that starts with "broken-runner": a literal, an f-string, or a local bound to one"""
+    if isinstance(a, ast.Constant) and isinstance(a.value, str):
+        return a.value.startswith('broken-runner')
+    if isinstance(a, ast.JoinedStr):
+        return bool(a.values) and isinstance(a.values[0], ast.Constant) and str(a.values[0].value).startswith('broken-runner')
+    if isinstance(a, ast.Name):
+        return strs.get(a.id, False)
+    return False
+
+
+def holder_binding(s, strs={}):
     if isinstance(s, ast.Assign) and len(s.targets) == 1 and isinstance(s.targets[0], ast.Name) and isinstance(s.value, ast.Call):
         c = s.value
         if ast.unparse(c.func) in ('testtools.ErrorHolder', 'ErrorHolder') and len(c.args) == 1 \
                 and [(k.arg, ast.unparse(k.value)) for k in c.keywords] == [('error', 'sys.exc_info()')]:
-            a = c.args[0]
-            if isinstance(a, ast.Constant) and isinstance(a.value, str) and a.value.startswith('broken-runner'):
-                return s.targets[0].id
-            if isinstance(a, ast.JoinedStr) and a.values and isinstance(a.values[0], ast.Constant) and str(a.values[0].value).startswith('broken-runner'):
+            if broken_id(c.args[0], strs):
                 return s.targets[0].id
     return None
 
@@ -31,11 +42,17 @@ def holder_binding(s):
 def block(stmts, p):
     stmts = [s for s in stmts if not (isinstance(s, ast.Expr) and isinstance(s.value, ast.Constant)) and not isinstance(s, ast.Pass)]
     items = []
+    strs = {}           # locals bound to a string literal / f-string in this block: name -> starts with "broken-runner"
     i = 0
     while i < len(stmts):
         s = stmts[i]
         u = ast.unparse(s)
-        h = holder_binding(s)
+        if isinstance(s, ast.Assign) and len(s.targets) == 1 and isinstance(s.targets[0], ast.Name) \
+                and (isinstance(s.value, ast.JoinedStr) or (isinstance(s.value, ast.Constant) and isinstance(s.value.value, str))):
+            strs[s.targets[0].id] = broken_id(s.value, {})      # pure binding of a string: dropped
+            i += 1
+            continue
+        h = holder_binding(s, strs)
         if h is not None and i + 1 < len(stmts) and ast.unparse(stmts[i + 1]) == '%s.run(%s)' % (h, p[1]):
             items.append('.act .runBroken')
             i += 2
@@ -50,10 +67,14 @@ def block(stmts, p):
             items.append('.act .startTestRun')
         elif isinstance(s, ast.Try) and not s.handlers and not s.orelse and s.finalbody:
             items.append('.tryFinally %s %s' % (block(s.body, p), block(s.finalbody, p)))
-        elif isinstance(s, ast.Try) and len(s.handlers) == 1 and not s.orelse and not s.finalbody and s.handlers[0].name is None:
+        elif isinstance(s, ast.Try) and len(s.handlers) == 1 and not s.orelse and s.handlers[0].name is None:
             t = s.handlers[0].type
             cls = '.all' if t is None or ast.unparse(t) == 'BaseException' else '.exception' if ast.unparse(t) == 'Exception' else '.other'
-            items.append('.tryExcept %s %s %s' % (cls, block(s.body, p), block(s.handlers[0].body, p)))
+            inner = '.tryExcept %s %s %s' % (cls, block(s.body, p), block(s.handlers[0].body, p))
+            if s.finalbody:     # try/except/finally in one statement = try: (try/except) finally: …   (Python reference, 8.4)
+                items.append('.tryFinally (%s .done) %s' % (inner, block(s.finalbody, p)))
+            else:
+                items.append(inner)
         else:
             items.append('.unknown')
         i += 1
